@@ -9,6 +9,8 @@ import (
 
 	"github.com/dapr/kit/cron"
 
+	"verif/simclock"
+
 	"verif/harness/common"
 	"verif/simrt"
 )
@@ -47,6 +49,7 @@ const (
 	opEntries
 	opSleep
 	opRelease
+	opJump
 )
 
 type op struct {
@@ -59,13 +62,17 @@ var specs = []string{"* * * * * *", "*/2 * * * * *", "*/3 * * * * *", "0,30 * * 
 var sleeps = []time.Duration{300 * time.Millisecond, time.Second, 2 * time.Second, 2500 * time.Millisecond, 7 * time.Second, 700 * time.Millisecond}
 
 func body(s *simrt.Sim, tier string) {
-	exact := s.Choose(2, "exact") == 0
-	if exact {
+	mode := s.Choose(4, "mode") // 0,1 exact; 2 no injected delays but wall-clock jumps; 3 injected delays (and possibly jumps)
+	exact := mode < 2
+	if mode < 3 {
 		s.DisableDelays()
 	}
 	parser := cron.NewParser(cron.Second | cron.Minute | cron.Hour | cron.Dom | cron.Month | cron.Dow | cron.Descriptor)
-	c := cron.New(cron.WithParser(parser), cron.WithLocation(time.UTC))
-	t0 := time.Now()
+	clk := &simclock.SkewClock{}
+	jumps := mode == 2 || mode == 3 && s.Choose(2, "jumps") == 0
+	c := cron.New(cron.WithParser(parser), cron.WithLocation(time.UTC), cron.WithClock(clk))
+	now := func() time.Time { return clk.Now() }
+	t0 := now()
 	rel := func(t time.Time) string {
 		if t.IsZero() {
 			return "zero"
@@ -102,7 +109,11 @@ func body(s *simrt.Sim, tier string) {
 			case k < 9:
 				l = append(l, op{k: opEntries})
 			case k < 10:
-				l = append(l, op{k: opRelease})
+				if jumps && s.Choose(2, "jump?") == 0 {
+					l = append(l, op{k: opJump, sleep: []time.Duration{1500 * time.Millisecond, 4 * time.Second, 11 * time.Second}[s.Choose(3, "jumpby")]})
+				} else {
+					l = append(l, op{k: opRelease})
+				}
 			default:
 				l = append(l, op{k: opSleep, sleep: sleeps[s.Choose(len(sleeps), "sleep")]})
 			}
@@ -125,6 +136,7 @@ func body(s *simrt.Sim, tier string) {
 		}
 		return nil
 	}
+	var totalJump time.Duration
 	gate := make(chan struct{})
 	released := false
 	jobsRunning := 0
@@ -132,7 +144,7 @@ func body(s *simrt.Sim, tier string) {
 
 	job := func(e *entry) func() {
 		return func() {
-			st := &start{at: time.Now(), stamp: s.Stamp()}
+			st := &start{at: now(), stamp: s.Stamp()}
 			e.starts = append(e.starts, st)
 			jobsRunning++
 			s.Logf("job e%d at %s", e.idx, rel(st.at))
@@ -158,28 +170,28 @@ func body(s *simrt.Sim, tier string) {
 					if cl != 0 || running() != nil {
 						continue // Start/Stop only from client 0 keeps run epochs unambiguous
 					}
-					ep := &epoch{startInv: time.Now()}
+					ep := &epoch{startInv: now()}
 					epochs = append(epochs, ep)
 					s.Logf("Start at %s", rel(ep.startInv))
 					c.Start()
-					ep.startRet = time.Now()
+					ep.startRet = now()
 				case opStop:
 					ep := running()
 					if cl != 0 || ep == nil || ep.startRet.IsZero() {
 						continue
 					}
-					ep.stopInv = time.Now()
+					ep.stopInv = now()
 					s.Logf("Stop at %s", rel(ep.stopInv))
 					ep.stopCtx = c.Stop()
-					ep.stopRet, ep.stopRetStamp = time.Now(), s.Stamp()
+					ep.stopRet, ep.stopRetStamp = now(), s.Stamp()
 					ep.stopped = true
 				case opAdd:
 					e := o.e
-					e.addInv = time.Now()
+					e.addInv = now()
 					e.epochAtAdd = len(epochs)
 					s.Logf("Add e%d %q at %s", e.idx, e.spec, rel(e.addInv))
 					e.id = c.Schedule(e.sched, cron.FuncJob(job(e)))
-					e.addRet, e.addRetStamp = time.Now(), s.Stamp()
+					e.addRet, e.addRetStamp = now(), s.Stamp()
 					e.added = true
 				case opRemove:
 					var cand []*entry
@@ -192,15 +204,15 @@ func body(s *simrt.Sim, tier string) {
 						continue
 					}
 					e := cand[s.Choose(len(cand), "which")]
-					e.remInv = time.Now()
+					e.remInv = now()
 					s.Logf("Remove e%d at %s", e.idx, rel(e.remInv))
 					c.Remove(e.id)
-					e.remRet, e.remRetStamp = time.Now(), s.Stamp()
+					e.remRet, e.remRetStamp = now(), s.Stamp()
 					e.removed = true
 				case opEntries:
-					inv := time.Now()
+					inv := now()
 					snap := c.Entries()
-					ret := time.Now()
+					ret := now()
 					for _, se := range snap {
 						var e *entry
 						for _, x := range entries {
@@ -243,6 +255,19 @@ func body(s *simrt.Sim, tier string) {
 					}
 				case opSleep:
 					s.Sleep(o.sleep)
+				case opJump:
+					// the wall clock steps while the scheduler is at rest (parked on its timer, every job it started already running or done)
+					if ep := running(); ep != nil {
+						if !s.WaitUntil("rest", time.Minute, func() bool {
+							return s.PredBlockedIn("", "Cron.run") && s.PredLiveCount("Cron.startJob") == jobsRunning
+						}) {
+							continue
+						}
+					}
+					s.Logf("wall clock jumps forward by %v at %s", o.sleep, rel(now()))
+					clk.Jump(o.sleep)
+					totalJump += o.sleep
+					s.Fault("clock.jump")
 				}
 				// Stop contexts: done only when every started job has returned
 				for _, ep := range epochs {
@@ -273,9 +298,9 @@ func body(s *simrt.Sim, tier string) {
 	var finalCtx context.Context
 	if ep := running(); ep != nil && !ep.startRet.IsZero() {
 		s.Go("finalstop", func() {
-			ep.stopInv = time.Now()
+			ep.stopInv = now()
 			ep.stopCtx = c.Stop()
-			ep.stopRet, ep.stopRetStamp = time.Now(), s.Stamp()
+			ep.stopRet, ep.stopRetStamp = now(), s.Stamp()
 			ep.stopped = true
 			finalCtx = ep.stopCtx
 		})
@@ -284,7 +309,7 @@ func body(s *simrt.Sim, tier string) {
 			return
 		}
 	}
-	endTime := time.Now()
+	endTime := now()
 	for _, ep := range epochs {
 		if ep.stopCtx != nil {
 			ctx := ep.stopCtx
@@ -359,7 +384,7 @@ func body(s *simrt.Sim, tier string) {
 			n := e.sched.Next(w.from)
 			for si < len(e.starts) {
 				st := e.starts[si]
-				if !st.at.Before(w.to.Add(maxInjected+time.Second)) && w.to != endTime {
+				if !st.at.Before(w.to.Add(maxInjected+totalJump+time.Second)) && w.to != endTime {
 					break // belongs to a later window
 				}
 				if n.IsZero() || st.at.Before(n) {
@@ -368,6 +393,17 @@ func body(s *simrt.Sim, tier string) {
 				}
 				n = e.sched.Next(n)
 				si++
+			}
+		}
+		{
+			// once per wake-up: the scheduler never starts one entry twice at the same instant
+			// (also when the wall clock jumped over several activations)
+			seen := map[time.Time]int{}
+			for _, st := range e.starts {
+				seen[st.at]++
+				if seen[st.at] > 1 && mode < 3 {
+					s.Fail("started-twice", fmt.Sprintf("e%d (%q): %d starts at the same instant %s (one wake-up must start an entry once, whatever the clock skipped)", e.idx, e.spec, seen[st.at], rel(st.at)))
+				}
 			}
 		}
 		if exact && !s.Failed() {
@@ -405,7 +441,7 @@ func body(s *simrt.Sim, tier string) {
 		}
 		// Remove / Stop
 		for _, st := range e.starts {
-			if e.removed && st.at.After(e.remRet.Add(maxInjected)) {
+			if e.removed && st.at.After(e.remRet.Add(maxInjected+totalJump)) {
 				s.Fail("start-after-remove", fmt.Sprintf("e%d started at %s, Remove returned at %s", e.idx, rel(st.at), rel(e.remRet)))
 			}
 		}
